@@ -129,7 +129,10 @@ CATALOGUE = [
     ("3.0", {"format": "byte"}, "", "T"), ("3.0", {"format": "byte"}, "QUJD", "T"), ("3.0", {"format": "byte"}, "QUI=", "T"), ("3.0", {"format": "byte"}, "QQ==", "T"),
     ("3.0", {"format": "byte"}, "QUJ", "U"), ("3.0", {"format": "byte"}, "QU=J", "F"), ("3.0", {"format": "byte"}, "Q===", "F"), ("3.0", {"format": "byte"}, "QU-_", "U"),
     ("3.0", {"format": "byte"}, "QUJD\n", "U"), ("3.0", {"format": "byte"}, "QU!D", "F"), ("3.0", {"format": "byte"}, "=", "F"),
-    ("3.0", {"format": "email"}, "not an email", "T"), ("3.0", {"format": "int32"}, 2**40, "T"), ("3.0", {"type": "string", "format": "date", "minLength": 11}, "2020-01-01", "F"),
+    ("3.0", {"format": "email"}, "not an email", "U"), ("3.0", {"format": "email"}, "", "F"), ("3.0", {"format": "hostname"}, "", "F"),
+    ("3.0", {"format": "uri-reference"}, "", "T"), ("3.0", {"format": "uri-reference"}, "a b", "U"), ("3.0", {"format": "regex"}, "", "T"),
+    ("3.0", {"format": "uri-template"}, "", "T"), ("3.0", {"format": "json-pointer"}, "", "T"), ("3.0", {"format": "iri-reference"}, "", "T"),
+    ("3.0", {"format": "uri"}, "", "F"), ("3.0", {"format": "ipv6"}, "::1", "U"), ("3.0", {"format": "password"}, "", "T"), ("3.0", {"format": "uri-reference"}, 5, "T"), ("3.0", {"format": "int32"}, 2**40, "T"), ("3.0", {"type": "string", "format": "date", "minLength": 11}, "2020-01-01", "F"),
     # ---- arrays
     ("3.0", {"items": {"type": "integer"}}, [1, 2], "T"), ("3.0", {"items": {"type": "integer"}}, [1, "2"], "F"), ("3.0", {"items": {"type": "integer"}}, [], "T"),
     ("3.0", {"items": {"type": "integer"}}, "x", "T"), ("3.0", {"minItems": 2}, [1], "F"), ("3.0", {"minItems": 2}, [1, 1], "T"), ("3.0", {"maxItems": 0}, [], "T"),
@@ -326,7 +329,7 @@ def projection_selftest() -> list[str]:
 # 3. differential test against jsonschema
 # ------------------------------------------------------------------------------------------------------------------
 PATS = ["^[a-z]+$", "[a-z]+", "^[0-9]{2,3}", "ab?c*$", "^[a-c]{2}$", "[0-9]$", "^a", "^[^a]+$", "b{2,}", "^a?b+c{1,2}$"]
-FORMATS = ["uuid", "date", "date-time", "ipv4", "byte", "email"]
+FORMATS = ["uuid", "date", "date-time", "ipv4", "byte", "email", "uri-reference", "hostname", "regex", "int64"]
 STR_POOL = ["", "a", "ab", "abc", "abcd", "1", "12", "123", "a1", "1a", "aab", "bb", "abcc", "ac", "b", "bbc", " ", "é", "A", "abbcc",
             UUID, UUID.upper(), UUID[:-2], "2020-02-29", "2021-02-29", "2020-12-31", "2020-1-01", "2020-01-01T10:20:30Z", "2020-01-01T10:20:30.5+01:00",
             "2020-01-01T25:00:00Z", "2020-06-31T00:00:00Z", "1.2.3.4", "1.2.3.256", "1.2.3", "300.1.1.1", "QUJD", "QUI=", "QQ==", "Q!==", "QQ=", "x@y.z"]
@@ -355,9 +358,17 @@ def ref_format(fmt: str, s: str):
                 return False
             base64.b64decode(s, validate=True)
             return True
+        if fmt in EMPTY_OK:
+            return True if s == "" else None
+        if fmt in NON_EMPTY:
+            return False if s == "" else None
     except ValueError:
         return False
     return True
+
+
+EMPTY_OK = ("uri-reference", "iri-reference", "uri-template", "regex", "json-pointer")
+NON_EMPTY = ("duration", "email", "hostname", "idn-email", "idn-hostname", "ipv6", "iri", "time", "uri", "relative-json-pointer")
 
 
 def rnd_value(rng, d=0):
@@ -505,7 +516,7 @@ def differential(n: int, seed: int, work: str) -> tuple[int, int, int, list]:
     rng = random.Random(seed)
     checker = jsonschema.FormatChecker(formats=())
     unsure = object()
-    for f in ("uuid", "date", "date-time", "ipv4", "byte"):
+    for f in ("uuid", "date", "date-time", "ipv4", "byte") + EMPTY_OK + NON_EMPTY:
         def chk(x, f=f):
             if not isinstance(x, str):
                 return True
